@@ -109,6 +109,14 @@ type File struct {
 	// PublicOf: imports induced by references that should be written `import public`.
 	PublicImports []string `json:"public_imports,omitempty"`
 	Header        string   `json:"header,omitempty"` // leading file comment
+	// WeakImports: imports induced by references that should be written `import weak`.
+	WeakImports []string `json:"weak_imports,omitempty"`
+	// PackageComment is the leading comment of the package statement ("" for none).
+	PackageComment string `json:"package_comment,omitempty"`
+	// ImportComments: import path -> leading comment of that import statement.
+	ImportComments map[string]string `json:"import_comments,omitempty"`
+	// OptionComments: file option name -> leading comment of that option statement.
+	OptionComments map[string]string `json:"option_comments,omitempty"`
 }
 
 type Module struct {
@@ -396,10 +404,14 @@ func (s *Schema) ImportsOf(f *File) []Import {
 	for _, p := range f.PublicImports {
 		pub[p] = true
 	}
+	weak := map[string]bool{}
+	for _, p := range f.WeakImports {
+		weak[p] = true
+	}
 	var out []Import
 	seen := map[string]bool{}
 	for p := range need {
-		out = append(out, Import{Path: p, Public: pub[p]})
+		out = append(out, Import{Path: p, Public: pub[p], Weak: weak[p] && !pub[p]})
 		seen[p] = true
 	}
 	for _, im := range f.ExtraImports {
